@@ -24,14 +24,28 @@ Proof. unfold static_ok, state_ok; cbn; repeat split; try discriminate; apply Ql
 
 (* --- ledger with a single clamp: end = max(0, start + births + transfers in - retirements - natural deaths -
        slaughter - starvation deaths - homekill); the code's two internal clamps compose to this one *)
-Theorem c06_ledger : forall month0 st a tr remaining sv, static_ok st -> 0 <= remaining -> 0 <= s_pop (a_state a) ->
+Theorem c06_ledger : forall month0 st a tr remaining sv budget, budget == 0 ->
+  static_ok st -> 0 <= remaining -> 0 <= s_pop (a_state a) ->
   let b := phase_b month0 st a tr remaining in
-  let c := phase_c st (s_pop (a_state a)) sv b hk_hours_total in
+  let c := phase_c st (s_pop (a_state a)) sv b budget in
   let x := s_pop (a_state a) + a_births a + (if st_milk st then 0 else tr) - (if st_milk st then a_ret a else 0)
            - b_other_death b - b_slaughter b - c_starve_death c - c_hk_healthy c - c_hk_starving c in
   (0 <= x -> c_pop c == x) /\ (x <= 0 -> c_pop c == 0) /\ 0 <= c_pop c.
 Proof. exact ledger_one. Qed.
 Print Assumptions c06_ledger.
+
+(* --- the homekill budget that the homekill / starvation loop hands from herd to herd is 0 for every herd of the list
+       (so c06_ledger and c06_nonneg apply to every herd, not only the first), and the loop is phase_c herd by herd *)
+Theorem c06_budget_zero : forall l,
+  Forall (fun x : sstatic * Q * Q * phaseB =>
+            let '(st, _, _, b) := x in
+            0 < st_hours st /\ 0 <= st_starv st /\ 0 <= b_other_death b /\ 0 <= b_ptot b /\ 0 <= b_pbirth b) l ->
+  Forall (fun q => q == 0) (budgets l hk_hours_total) /\
+  phase_c_loop l hk_hours_total =
+  map (fun xq : (sstatic * Q * Q * phaseB) * Q => let '(st, ps, sv, b, q) := xq in phase_c st ps sv b q)
+      (combine l (budgets l hk_hours_total)).
+Proof. intros l H. split; [apply budgets_zero; [reflexivity|exact H]|apply phase_c_loop_unfold]. Qed.
+Print Assumptions c06_budget_zero.
 
 (* --- transfers: a meat herd receives exactly what the (last) dairy herd of its species retires plus its surviving
        male calves; the dairy herd records the negative; a species without dairy herd receives nothing *)
@@ -115,25 +129,26 @@ Print Assumptions c06_available_target.
 
 (* --- every flow and the head count are non-negative; births need a non-negative carried birthing figure, which the
        month step preserves (state_ok of the next state) *)
-Theorem c06_nonneg : forall m month0 st s tr remaining sv, static_ok st -> state_ok s -> 0 <= remaining ->
+Theorem c06_nonneg : forall m month0 st s tr remaining sv budget, budget == 0 ->
+  static_ok st -> state_ok s -> 0 <= remaining ->
   let a := phase_a m (st, s) in
   let b := phase_b month0 st a tr remaining in
-  let c := phase_c st (s_pop (a_state a)) sv b hk_hours_total in
+  let c := phase_c st (s_pop (a_state a)) sv b budget in
   0 <= a_births a /\ 0 <= a_ret a /\ 0 <= b_other_death b /\ 0 <= b_slaughter b /\
   0 <= c_starve_death c /\ c_hk_healthy c == 0 /\ c_hk_starving c == 0 /\ c_hk_other c == 0 /\ 0 <= c_pop c /\
   state_ok {| s_pop := c_pop c; s_sl := b_slaughter b; s_ptot := c_ptot c; s_pbirth := c_pbirth c; s_pfrac := s_pfrac (a_state a) |}.
 Proof.
-  intros m month0 st s tr remaining sv Hst Hs Hr.
+  intros m month0 st s tr remaining sv budget Hb0 Hst Hs Hr.
   destruct (phase_a_nonneg m st s Hst Hs) as (As & Ap & Ab & _ & Ar & _). cbn zeta.
   set (a := phase_a m (st, s)) in *.
   pose proof (phase_b_spec month0 st a tr remaining Hst Hr) as B. cbn zeta in B.
   destruct B as (_ & _ & Bo & Bs & _ & _ & _ & _ & _ & _ & _ & Bpt & Bpb).
   destruct As as (P0 & _).
-  pose proof (ledger_one month0 st a tr remaining sv Hst Hr P0) as L. cbn zeta in L. destruct L as (_ & _ & L).
+  pose proof (ledger_one month0 st a tr remaining sv budget Hb0 Hst Hr P0) as L. cbn zeta in L. destruct L as (_ & _ & L).
   destruct Hst as (Hh & _ & _ & Hd & Hsv & _).
   assert (Hod : 0 <= b_other_death (phase_b month0 st a tr remaining)).
   { rewrite Bo. apply Qmult_le_0_compat; assumption. }
-  pose proof (phase_c_spec st (s_pop (a_state a)) sv _ Hh Hsv Hod Bpt Bpb) as C. cbn zeta in C.
+  pose proof (phase_c_spec st (s_pop (a_state a)) sv _ budget Hb0 Hh Hsv Hod Bpt Bpb) as C. cbn zeta in C.
   destruct C as (C1 & C2 & C3 & _ & _ & C6 & _ & _ & _ & _ & _ & C12 & C13).
   repeat split; assumption.
 Qed.
